@@ -239,6 +239,9 @@ ObsOK(o) ==
     /\ ("ix" \in DOMAIN o =>             \* to_index / from_index: inverse bijections onto 0..n-1
           /\ {o.ix[i][2] : i \in DOMAIN o.ix} = 0 .. (N - 1) /\ {o.ix[i][1] : i \in DOMAIN o.ix} = Live
           /\ Len(o.ix) = N /\ \A i \in DOMAIN o.ix : o.ix[i][3] = o.ix[i][1])
+    /\ ("eix" \in DOMAIN o =>            \* EdgeIndexable: distinct indices below edge_bound, from_index inverse to to_index
+          /\ Cardinality({o.eix[i][1] : i \in DOMAIN o.eix}) = Len(o.eix)
+          /\ \A i \in DOMAIN o.eix : o.eix[i][1] < o.ebound /\ o.eix[i][2])
     /\ ("bound" \in DOMAIN o => \A x \in Live : x < o.bound)
     /\ ("erefs" \in DOMAIN o =>          \* List edge ids: <<from, rank, target, w>> row-major
           o.erefs = LET rows == [a \in 0 .. (N - 1) |-> [i \in 1 .. Len(Row(a)) |-> <<a, i - 1, Row(a)[i].b, Row(a)[i].w>>]] IN
